@@ -2,6 +2,7 @@ package rules
 
 import (
 	"go/ast"
+	"go/constant"
 	"go/types"
 
 	"verif/checker/core"
@@ -71,4 +72,173 @@ func init() {
 			}
 			r.Check(sites >= 2, rule, f.String(), "reads:count", f.Pos(), "both underlying reads (data and over-limit probe) found")
 		})
+}
+
+// c32GzipCases decides the Content-Encoding dispatch of BatchReadCloser under a
+// valuation of its encoding parameter instead of looking for case edges:
+//   - with encoding = "gzip" / "x-gzip" gzip.NewReader is reached and no
+//     successful return is reachable without it;
+//   - with any other encoding ("" / "identity" / a value the function does not
+//     mention) gzip.NewReader is not reachable.
+//
+// Conditions are evaluated with && || ! interpreted, tag-switch cases as
+// `tag == case`, temporaries `e := encoding` resolved, and pure single-return
+// predicates (`isGzip(encoding)`, local closures) seen through. A condition
+// the valuation does not decide is followed on both branches (fail-closed).
+func c32GzipCases(p *core.Prog, r *core.Report, f *core.Func, g *core.Graph, enc types.Object, gzN *core.Node, rule string) {
+	info := f.Info()
+	if !r.Check(len(core.AssignsTo8(info, f.Decl.Body, enc)) == 0, rule, f.String(), "encoding-reassigned", f.Pos(), "the encoding parameter is not reassigned before the dispatch") {
+		return
+	}
+	leafFor := func(val string) core.Leaf10 {
+		mk := func(env core.EnvHD2) core.LeafEval {
+			isEnc := func(e ast.Expr) bool {
+				o := env.Obj(e)
+				if o == enc {
+					return true
+				}
+				if env.Info == info && o != nil {
+					if rhs, _, ok := core.SoleDefHD2(info, f.Decl.Body, o); ok {
+						return core.ObjOf(info, rhs) == enc
+					}
+				}
+				return false
+			}
+			return core.LeafEval(core.ConstEqLeaf10(env.Info, isEnc, constant.MakeString(val)))
+		}
+		return core.Leaf10(p.LeafThroughPredicatesHD2(core.BaseEnvHD2(info, f.Decl.Body), mk))
+	}
+	stopGz := func(x *core.Node) bool { return x == gzN }
+	decoded := true
+	for _, s := range []string{"gzip", "x-gzip"} {
+		reach := g.ReachUnder10([]*core.Node{g.Entry}, stopGz, leafFor(s))
+		if !reach[gzN] {
+			decoded = false
+		}
+		bad := false
+		for _, x := range g.SuccessExits() {
+			if reach[x] {
+				bad = true
+			}
+		}
+		r.Check(!bad, rule, f.String(), "case-skips-gzip:"+s, g.Line(gzN), "Content-Encoding "+s+" always passes gzip.NewReader before a successful return")
+	}
+	r.Check(decoded, rule, f.String(), "encodings", f.Pos(), "both gzip and x-gzip are decoded")
+	only := true
+	for _, s := range []string{"", "identity", "deflate", "\x00verif-other"} {
+		if g.ReachUnder10([]*core.Node{g.Entry}, nil, leafFor(s))[gzN] {
+			only = false
+		}
+	}
+	r.Check(only, rule, f.String(), "gzip.NewReader", g.Line(gzN), "gzip.NewReader is only reachable where encoding is gzip/x-gzip")
+}
+
+// c32WriteErrorForwarded looks at the *errors.Error handed to HandleHTTPError
+// in f, wherever it is built: in place, in a single-definition temporary, or by
+// a helper of the module (every return operand of the helper is a candidate,
+// with the helper's parameters bound to the call's arguments).
+//
+//	partial: some response has Code EUnprocessableEntity, carries the asserted
+//	         tsdb.PartialWriteError (or the write error itself) as Err, and is
+//	         built only where the type assertion / type-switch arm to
+//	         tsdb.PartialWriteError holds (in f or in the helper);
+//	generic: some response carries the WritePoints error as Err.
+func c32WriteErrorForwarded(p *core.Prog, f *core.Func, g *core.Graph, handle core.Matcher, pwe types.Type, werr types.Object) (partial, generic bool) {
+	unproc, _ := errCodeConst8(p, "EUnprocessableEntity")
+	// per function: the variables holding the asserted PartialWriteError, the
+	// `ok` edges of the assertions and the type-switch arms for that type
+	type pweFacts struct {
+		vars map[types.Object]bool
+		edge core.EdgePred
+		arms []ast.Node
+	}
+	memo := map[*core.Func]*pweFacts{}
+	facts := func(fn *core.Func) *pweFacts {
+		if v, ok := memo[fn]; ok {
+			return v
+		}
+		fi := fn.Info()
+		pf := &pweFacts{vars: map[types.Object]bool{}}
+		oks := map[types.Object]bool{}
+		ast.Inspect(fn.Decl.Body, func(n ast.Node) bool {
+			switch s := n.(type) {
+			case *ast.AssignStmt:
+				if len(s.Lhs) == 2 && len(s.Rhs) == 1 {
+					if ta, ok := ast.Unparen(s.Rhs[0]).(*ast.TypeAssertExpr); ok && ta.Type != nil && types.Identical(fi.TypeOf(ta.Type), pwe) {
+						if o := core.ObjOf(fi, s.Lhs[0]); o != nil {
+							pf.vars[o] = true
+						}
+						if o := core.ObjOf(fi, s.Lhs[1]); o != nil {
+							oks[o] = true
+						}
+					}
+				}
+			case *ast.TypeSwitchStmt:
+				for _, st := range s.Body.List {
+					cc, ok := st.(*ast.CaseClause)
+					if !ok || len(cc.List) != 1 || !types.Identical(fi.TypeOf(cc.List[0]), pwe) {
+						continue
+					}
+					pf.arms = append(pf.arms, cc)
+					if o := fi.Implicits[cc]; o != nil {
+						pf.vars[o] = true
+					}
+				}
+			}
+			return true
+		})
+		pf.edge = core.FactEdge8(func(x ast.Expr, v bool) bool {
+			o := core.ObjOf(fi, x)
+			if o == nil || !v || !oks[o] {
+				return false
+			}
+			// ok is written only by that assertion
+			for _, a := range core.AssignsTo8(fi, fn.Decl.Body, o) {
+				ta, isTA := a.Rhs.(*ast.TypeAssertExpr)
+				if !isTA || a.Index != 1 || ta.Type == nil || !types.Identical(fi.TypeOf(ta.Type), pwe) {
+					return false
+				}
+			}
+			return true
+		})
+		memo[fn] = pf
+		return pf
+	}
+	gated := func(fn *core.Func, fg *core.Graph, n *core.Node) bool {
+		pf := facts(fn)
+		for _, arm := range pf.arms {
+			if core.InRegion(n, arm) {
+				return true
+			}
+		}
+		return fg.HasEdge8(pf.edge) && len(fg.Bypassing8([]*core.Node{n}, pf.edge)) == 0
+	}
+	for _, n := range g.Select(g.Calling(handle)) {
+		for _, c := range core.CallsIn(g.Info, n.N, handle, core.WalkOpts{}) {
+			if len(c.Args) != 3 {
+				continue
+			}
+			for _, s := range p.ValueSitesHD2(f, g, n, c.Args[1]) {
+				code, inner, ok := errorLitFields8(p, s.Env.Info, s.Expr)
+				if !ok || inner == nil {
+					continue
+				}
+				local := core.ObjOf(s.Env.Info, inner) // object in the function holding the literal
+				carried := s.Env.Obj(inner)            // seen from handleWrite
+				if werr != nil && carried == werr {
+					generic = true
+				}
+				if unproc == nil || code == nil || selObj8(s.Env.Info, code) != unproc {
+					continue
+				}
+				if !((local != nil && facts(s.Fn).vars[local]) || (werr != nil && carried == werr)) {
+					continue
+				}
+				if gated(s.Fn, s.G, s.Node) || (s.Fn != f && gated(f, g, s.Outer)) {
+					partial = true
+				}
+			}
+		}
+	}
+	return partial, generic
 }
